@@ -214,7 +214,14 @@ func execFmtCase(c *Sx, env *execEnv) (*Sx, []Violation) {
 		var ref []string
 		for fi, f := range listFormats {
 			l1 := libList(dir, f, focus, exposure, stop)
-			l2 := libList(dir, f, focus, exposure, stop)
+			l2 := l1
+			// repeated runs: Go picks the second order of a two-entry map only about one time in eight
+			for k, reps := 0, map[bool]int{false: 2, true: 6}[exposure]; k < reps; k++ {
+				l2 = libList(dir, f, focus, exposure, stop)
+				if (l1.err == nil) != (l2.err == nil) || l1.out != l2.out {
+					break
+				}
+			}
 			env.count("fmt-list:" + f)
 			// C08: repeated runs are byte-identical
 			if (l1.err == nil) != (l2.err == nil) || l1.out != l2.out {
@@ -460,7 +467,7 @@ func checkDiffFormat(format, out string, cd diff.ConnectivityDiff) string {
 }
 
 func genFmtCase(r *Rng, id int, tier string) *Sx {
-	cfg := &genCfg{anp: r.P(30), banp: true, pods: true, ingress: r.P(35), icNs: true, namedOnIPPct: 0, maxNP: 4, maxWl: 5}
+	cfg := &genCfg{anp: r.P(30), banp: true, pods: true, ingress: r.P(35), icNs: true, twinPct: 25, namedOnIPPct: 0, maxNP: 4, maxWl: 5}
 	exposure := r.P(40)
 	if exposure {
 		cfg.anp, cfg.banp = false, false
